@@ -329,7 +329,8 @@ impl<'tcx> Interp<'tcx> {
                 }
                 TerminatorKind::Call { func, args, destination, target, .. } => {
                     self.cur_call_bb = bb;
-                    let track_key: Option<Rc<str>> = if self.track_ret.is_empty() { None } else { self.track_key(&st, func, args) };
+                    let track_key: Option<Rc<str>> = if self.track_ret.is_empty() { None } else { self.track_key(&st, func, args, false) };
+                    let via_key: Option<Rc<str>> = if self.track_ret.is_empty() || track_key.is_some() || self.region_depth > 0 { None } else { self.track_key(&st, func, args, true) };
                     let parts = self.do_call(st, bb, func, args, destination);
                     self.cur_call_bb = bb;
                     let Some(target) = target else { return acc };
@@ -341,12 +342,14 @@ impl<'tcx> Interp<'tcx> {
                         let (mut s, v) = parts.pop().unwrap();
                         self.assign_call_result(&mut s, destination, v);
                         self.note_call_result(&mut s, destination, &track_key);
+                        self.adopt_ret_fact(&mut s, destination, &via_key);
                         let o = self.exec_from(target.as_usize(), 0, stop, s, false);
                         acc.merge(o);
                     }
                     let (mut s, v) = parts.pop().unwrap();
                     self.assign_call_result(&mut s, destination, v);
                     self.note_call_result(&mut s, destination, &track_key);
+                    self.adopt_ret_fact(&mut s, destination, &via_key);
                     st = s;
                     bb = target.as_usize();
                 }
@@ -514,12 +517,17 @@ impl<'tcx> Interp<'tcx> {
     }
 
     /// fact key of a tracked call: `<caller>: <callee>(<argument places>)`
-    fn track_key(&mut self, st: &State, func: &Operand<'tcx>, args: &[rustc_span::Spanned<Operand<'tcx>>]) -> Option<Rc<str>> {
+    /// key of the path fact of a call result; `via`: any function of the analysed crate (its result may carry the fact
+    /// of a tracked call made inside it)
+    fn track_key(&mut self, st: &State, func: &Operand<'tcx>, args: &[rustc_span::Spanned<Operand<'tcx>>], via: bool) -> Option<Rc<str>> {
         let bi = self.stack.last().unwrap().clone();
         let fty = func.ty(&bi.body, self.tcx);
         let ty::FnDef(def, _) = fty.kind() else { return None };
+        if via && !def.is_local() {
+            return None;
+        }
         let name = crate::facts::def_name(self.tcx, *def);
-        if !self.track_ret.iter().any(|p| name.contains(p.as_str())) {
+        if !via && !self.track_ret.iter().any(|p| name.contains(p.as_str())) {
             return None;
         }
         let mut ds = Vec::new();
@@ -552,6 +560,28 @@ impl<'tcx> Interp<'tcx> {
             st.frames[fi].callres.push((l, ver, key.clone()));
             self.fact_gen += 1;
             Rc::make_mut(&mut st.facts).insert(key.clone(), (lo, hi, self.fact_gen));
+        }
+    }
+
+    /// a call returned a value that carries the path fact of a tracked call made inside the callee
+    fn adopt_ret_fact(&mut self, st: &mut State, dest: &mir::Place<'tcx>, via: &Option<Rc<str>>) {
+        if !st.facts.contains_key("$ret") {
+            return;
+        }
+        let f = Rc::make_mut(&mut st.facts).remove("$ret");
+        let (Some(f), Some(via), Some(inner)) = (f, via, self.ret_fact_key.clone()) else { return };
+        if !dest.projection.is_empty() {
+            return;
+        }
+        let fi = self.fi() as usize;
+        let l = dest.local.as_u32();
+        if let Val::Int(_) = &st.frames[fi].locals[l as usize] {
+            let key: Rc<str> = Rc::from(format!("{} <= {}", via, inner).as_str());
+            let ver = st.frames[fi].vers[l as usize];
+            st.frames[fi].callres.retain(|e| e.0 != l);
+            st.frames[fi].callres.push((l, ver, key.clone()));
+            self.fact_gen += 1;
+            Rc::make_mut(&mut st.facts).insert(key, (f.0, f.1, self.fact_gen));
         }
     }
 
@@ -904,6 +934,32 @@ impl<'tcx> Interp<'tcx> {
         for (t, mut s) in outs.at {
             if let Tgt::Return(k) = t {
                 let fr = s.frames.pop().unwrap();
+                if !self.track_ret.is_empty() && !fr.callres.is_empty() && !bi.name.contains("{closure") {
+                    // the returned value is a tracked call result (possibly through copies): its path fact travels
+                    // with the result so that the caller can go on refining it
+                    let depth = s.frames.len() as u32;
+                    let (mut l, mut ver) = (0u32, fr.vers[0]);
+                    let mut found: Option<Rc<str>> = None;
+                    for _ in 0..4 {
+                        if let Some(e) = fr.callres.iter().find(|e| e.0 == l && e.1 == ver) {
+                            found = Some(e.2.clone());
+                            break;
+                        }
+                        match fr.origin.iter().find(|e| e.0 == l && e.1 == ver) {
+                            Some((_, _, ptr, bv)) if ptr.proj.is_empty() && ptr.frame == depth && fr.vers[ptr.local as usize] == *bv => {
+                                l = ptr.local;
+                                ver = *bv;
+                            }
+                            _ => break,
+                        }
+                    }
+                    if let Some(key) = found {
+                        if let Some(f) = s.facts.get(&key).cloned() {
+                            Rc::make_mut(&mut s.facts).insert(Rc::from("$ret"), f);
+                            self.ret_fact_key = Some(key);
+                        }
+                    }
+                }
                 let ret = fr.locals[0].clone();
                 let ret = self.conc(&s, ret);
                 parts.push((k, s, ret));
@@ -1012,8 +1068,9 @@ impl<'tcx> Interp<'tcx> {
             d.insert("first_atom".to_string(), atoms_before.to_string());
             self.probes.push(Probe { what: "ret".into(), inst: bi.name.clone(), ctx: String::new(), data: d });
         }
+        let carries_fact = out.iter().any(|o| o.0.facts.contains_key("$ret"));
         if let Some(k) = pkey {
-            if !out.is_empty() && !self.over_budget {
+            if !out.is_empty() && !self.over_budget && !carries_fact {
                 let viol = self.violations_since(&pviol_before, &bi.short);
                 let base_path = self.call_path();
                 let e = self.pmemo.entry(inst).or_default();
@@ -1028,7 +1085,7 @@ impl<'tcx> Interp<'tcx> {
             }
         }
         if let Some(k) = memo_key {
-            if !out.is_empty() && !self.over_budget {
+            if !out.is_empty() && !self.over_budget && !carries_fact {
                 let all = self.violations_since(&viol_before, &bi.short);
                 self.memo.insert(k, (out.iter().map(|o| o.1.strip_tags()).collect(), all));
             }
